@@ -184,6 +184,13 @@ fn gen_base(rng: &mut Rng) -> ConnScenario {
             body: Body::Raw { bytes: rng.bytes(blen) },
         });
     }
+    // a really large (still legal) frame with another one right behind it: buffers grow, and may be swapped or shrunk
+    if rng.chance(1, 6) {
+        let at = ms(rng.range(1, 20_000));
+        let blen = rng.range(3_000, 9_500) as usize;
+        client.extras.push(Extra { after_ack: true, at_ns: at, id: 0x02, body: Body::Raw { bytes: { let mut b = b"\x12minecraft:register".to_vec(); b.resize(blen, 0x61); b } } });
+        client.extras.push(Extra { after_ack: true, at_ns: at, id: 0x02, body: Body::Raw { bytes: b"\x0fminecraft:brand\x07vanilla".to_vec() } });
+    }
     if rng.chance(1, 4) {
         client.extras.push(Extra {
             after_ack: true, at_ns: ms(rng.range(1, 60_000)), id: 0x04, body: Body::KeepAlive { id: KaId::Fixed(rng.next_u64()) } });
